@@ -17,6 +17,8 @@ from ..schema import (
     InputObjectType,
     InputValue,
     InterfaceType,
+    ListType,
+    NonNullType,
     ObjectType,
     ScalarType,
     Schema,
@@ -293,6 +295,11 @@ class TypeInfoVisitor(DispatchingVisitor):
         return t if isinstance(t, InputObjectType) else None
 
     @property
+    def enclosing_input_type(self) -> Optional[GraphQLType]:
+        """Type expected at the position enclosing the current input value."""
+        return _peek(self._input_type_stack, 2)
+
+    @property
     def field(self) -> Optional[Field]:
         return _peek(self._field_stack)
 
@@ -414,8 +421,15 @@ class TypeInfoVisitor(DispatchingVisitor):
         self._leave_input_value()
 
     def enter_list_value(self, node):
-
-        item_type = unwrap_type(self.input_type) if self.input_type else None
+        # Items of a list literal are expected to be of the item type of the
+        # list type at this position (only one level of wrapping is removed);
+        # a list literal at a non list position is reported by the value check.
+        list_type = self.input_type
+        if isinstance(list_type, NonNullType):
+            list_type = list_type.type
+        item_type = (
+            list_type.type if isinstance(list_type, ListType) else list_type
+        )
 
         self._input_type_stack.append(
             item_type if item_type and is_input_type(item_type) else None
